@@ -1,6 +1,7 @@
 package kongini
 
 import (
+	"bytes"
 	"fmt"
 	"io"
 	"strings"
@@ -10,7 +11,18 @@ import (
 )
 
 func Loader(r io.Reader) (kong.Resolver, error) {
-	iniFile, err := ini.Load(r)
+	data, err := io.ReadAll(r)
+	if err != nil {
+		return nil, fmt.Errorf("error reading ini file: %w", err)
+	}
+
+	// Parser takes a file in UTF-16 (what some editors call "Unicode") without complaint, but no section or key
+	// of it is ever found then: all its settings would silently mean nothing.
+	if bytes.IndexByte(data, 0) >= 0 {
+		return nil, fmt.Errorf("error loading ini file: not a text file in UTF-8 (contains NUL bytes, maybe it's saved as UTF-16)")
+	}
+
+	iniFile, err := ini.Load(data)
 	if err != nil {
 		return nil, fmt.Errorf("error loading ini file: %w", err)
 	}
